@@ -320,7 +320,7 @@ def execute(plan, prop, out, tr):
                                     (I.ltype, I.dtype, X.ltype, X.dtype), i, "identity:type")
                 R = (I @ X) if op == "idl" else (X @ I)
                 local(R, MX, op, i, nX)
-                if np.abs(to_mat(fam, npd(I)) - np.eye(4)).max() > 0:
+                if not (np.abs(to_mat(fam, npd(I)) - np.eye(4)).max() <= 0):
                     raise Violation("C03.identity", "identity element's matrix is not the identity", i, "identity:value")
                 out.probe("identity")
                 X = R
